@@ -18,7 +18,8 @@ path seen by a file-access observer that contains the token is a witness on its 
 Mutation kinds (``KINDS``):
 
   names       dangling_input dangling_output dup_name empty_name io_alias init_like shadow_outer
-              redeclare_output
+              redeclare_output shadow_scope (consistent: definition and all references, often with a
+              sharding annotation on the shadowed operand)
   structure   shuffle_nodes cyclic_nodes self_loop deep_nesting recursive_function dup_function
               dup_attr dup_keyed copy_across outer_output drop_producer late_reject
   types/enums missing_type unknown_enum attr_type_mismatch unsupported
@@ -340,6 +341,172 @@ def m_shadow_outer(root, rng):
     return None
 
 
+_HAS_NODE_DEVICE_CONFIG = hasattr(onnx.NodeProto(), "device_configurations")
+
+
+def _node_subgraphs(n) -> list:
+    out = []
+    for a in n.attribute:
+        if a.HasField("g"):
+            out.append(a.g)
+        out.extend(a.graphs)
+    return out
+
+
+def _rename_in_scope(g, old: str, new: str) -> int:
+    """Rename ``old`` to ``new`` everywhere the name resolves in the scope of graph ``g``: its definition
+    (input, initializer, node output) and every by-name reference to it (node inputs, graph outputs,
+    value_info, quantization annotations, sharding specs of node device configurations), including captures
+    in nested subgraphs that do not define the name themselves.  Returns the number of renamed fields."""
+    renamed = 0
+    stack = [g]
+    visited = 0
+    while stack and visited < 2000:
+        c = stack.pop()
+        visited += 1
+        own = c is g
+        if not own and old in _names_defined(c):
+            continue  # re-defined further in: references there bind to the inner definition
+        if own:
+            for v in c.input:
+                if v.name == old:
+                    v.name = new
+                    renamed += 1
+            for t in c.initializer:
+                if t.name == old:
+                    t.name = new
+                    renamed += 1
+        for v in list(c.output) + list(c.value_info):
+            if v.name == old:
+                v.name = new
+                renamed += 1
+        for q in c.quantization_annotation:
+            if q.tensor_name == old:
+                q.tensor_name = new
+                renamed += 1
+            for e in q.quant_parameter_tensor_names:
+                if e.value == old:
+                    e.value = new
+                    renamed += 1
+        for n in c.node:
+            for i, x in enumerate(n.input):
+                if x == old:
+                    n.input[i] = new
+                    renamed += 1
+            if own:
+                for i, x in enumerate(n.output):
+                    if x == old:
+                        n.output[i] = new
+                        renamed += 1
+            if _HAS_NODE_DEVICE_CONFIG:
+                for dc in n.device_configurations:
+                    for s in dc.sharding_spec:
+                        if s.tensor_name == old:
+                            s.tensor_name = new
+                            renamed += 1
+            stack.extend(_node_subgraphs(n))
+    return renamed
+
+
+def _annotate_operand(root, n, name: str, rng) -> str:
+    """Give node ``n`` a well-formed device configuration whose sharding spec names its operand ``name``
+    (the configuration id is one the model declares; a model without configurations gets one)."""
+    ids = ["mesh2"]
+    if root.DESCRIPTOR.name == "ModelProto":
+        ids = [c.name for c in root.configuration if c.name]
+        if not ids:
+            c = root.configuration.add()
+            c.name = "mesh2"
+            c.num_devices = 2
+            ids = [c.name]
+        if root.ir_version < 11 and rng.random() < 0.8:
+            root.ir_version = rng.choice((11, 11, 12, 13))
+    dc = None
+    existing = [d for d in n.device_configurations if not any(s.tensor_name == name for s in d.sharding_spec)]
+    if existing and rng.random() < 0.5:
+        dc = rng.choice(existing)
+    if dc is None:
+        used = {d.configuration_id for d in n.device_configurations}
+        dc = n.device_configurations.add()
+        dc.configuration_id = rng.choice([i for i in ids if i not in used] or ids)
+        if rng.random() < 0.4:
+            dc.pipeline_stage = rng.randint(0, 3)
+    s = dc.sharding_spec.add()
+    s.tensor_name = name
+    s.device.extend(range(rng.randint(0, 2)))
+    if rng.random() < 0.7:
+        d = s.sharded_dim.add()
+        d.axis = rng.choice((0, 0, 1, -1))
+        ss = d.simple_sharding.add()
+        if rng.random() < 0.6:
+            ss.dim_value = rng.choice((2, 4, 1024))
+        ss.num_shards = rng.choice((1, 2, 2, 4))
+    return f"node {n.name or n.op_type!r} shards its operand under configuration {dc.configuration_id!r}"
+
+
+def m_shadow_scope(root, rng):
+    """A subgraph legitimately re-declares a name of an enclosing scope (a Loop/Scan-like body whose own
+    input, initializer or node output is called like an outer value): one of the names the subgraph defines is
+    renamed CONSISTENTLY (definition and every reference that resolves to it) to a name an enclosing
+    container defines.  Often a node of the subgraph that reads or writes the name also carries a device
+    configuration whose sharding spec refers to it, so that every kind of by-name reference meets the
+    shadowed name."""
+    sg = [(g, chain) for g, chain in scoped_graphs(root) if chain]
+    rng.shuffle(sg)
+    for g, chain in sg[:60]:
+        own = list(dict.fromkeys(_names_defined(g)))
+        if not own:
+            continue
+        outer = list(dict.fromkeys(x for c in chain for x in _names_defined(c) if x not in own))
+        if not outer:
+            continue
+        annotated = []
+        if _HAS_NODE_DEVICE_CONFIG:
+            annotated = [s.tensor_name for n in g.node for dc in n.device_configurations for s in dc.sharding_spec
+                         if s.tensor_name in own]
+        used = [x for x in own if any(x in n.input for n in g.node)]
+        r = rng.random()
+        if annotated and r < 0.5:
+            old = rng.choice(annotated)
+        elif used and r < 0.85:
+            old = rng.choice(used)
+        else:
+            old = rng.choice(own)
+        # prefer the nearest enclosing scope's names and names the subgraph does not capture
+        near = [x for x in dict.fromkeys(_names_defined(chain[-1])) if x not in own]
+        new = rng.choice(near) if near and rng.random() < 0.5 else rng.choice(outer)
+        role = ("input" if any(v.name == old for v in g.input) else
+                "initializer" if any(t.name == old for t in g.initializer) else "node output")
+        _rename_in_scope(g, old, new)
+        what = f"subgraph (depth {len(chain)}) {role} {old!r} consistently renamed to the outer name {new!r}"
+        if _HAS_NODE_DEVICE_CONFIG and rng.random() < 0.65:
+            users = [n for n in g.node if new in n.input or new in n.output]
+            if users:
+                what += "; " + _annotate_operand(root, rng.choice(users), new, rng)
+        return what
+    return None
+
+
+def shadowed_sharding_specs(root) -> int:
+    """Number of sharding specs on nodes inside subgraphs that name an operand of their node which is
+    defined in two or more of the scopes visible there (harness-side reach measure; no onnx_ir involved)."""
+    if not _HAS_NODE_DEVICE_CONFIG:
+        return 0
+    total = 0
+    for g, chain in scoped_graphs(root):
+        if not chain or len(chain) > 40:
+            continue
+        specs = [(n, s.tensor_name) for n in g.node for dc in n.device_configurations for s in dc.sharding_spec
+                 if s.tensor_name and (s.tensor_name in n.input or s.tensor_name in n.output)]
+        if not specs:
+            continue
+        scopes = [set(_names_defined(c)) for c in (*chain, g)]
+        for _n, name in specs:
+            if sum(1 for sc in scopes if name in sc) >= 2:
+                total += 1
+    return total
+
+
 def m_redeclare_output(root, rng):
     cs = [c for c in containers(root) if _nodes_with_output(c)]
     if not cs:
@@ -519,8 +686,14 @@ def m_dup_attr(root, rng):
     nodes = [n for n in of_type(root, "NodeProto") if n.attribute]
     if not nodes:
         return None
-    n = rng.choice(nodes)
-    src = rng.choice(list(n.attribute))
+    carriers = [n for n in nodes if any(a.HasField("g") or len(a.graphs) for a in n.attribute)]
+    if carriers and rng.random() < 0.5:
+        # the repeated name is that of an attribute carrying subgraph(s): the earlier occurrence is shadowed
+        n = rng.choice(carriers)
+        src = rng.choice([a for a in n.attribute if a.HasField("g") or len(a.graphs)])
+    else:
+        n = rng.choice(nodes)
+        src = rng.choice(list(n.attribute))
     a = n.attribute.add()
     if rng.random() < 0.5:
         a.CopyFrom(src)
@@ -528,7 +701,8 @@ def m_dup_attr(root, rng):
         a.name = src.name
         a.type = AP.INT
         a.i = 7
-    return f"attribute {src.name!r} given twice"
+    kind = " (GRAPH)" if src.HasField("g") else " (GRAPHS)" if len(src.graphs) else ""
+    return f"attribute {src.name!r}{kind} given twice"
 
 
 def m_dup_keyed(root, rng):
@@ -1289,7 +1463,7 @@ def m_byte_append_field(root, rng):
 MUTATIONS: dict[str, Callable] = {
     "dangling_input": m_dangling_input, "dangling_output": m_dangling_output, "dup_name": m_dup_name,
     "empty_name": m_empty_name, "io_alias": m_io_alias, "init_like": m_init_like, "shadow_outer": m_shadow_outer,
-    "redeclare_output": m_redeclare_output,
+    "redeclare_output": m_redeclare_output, "shadow_scope": m_shadow_scope,
     "shuffle_nodes": m_shuffle_nodes, "cyclic_nodes": m_cyclic_nodes, "self_loop": m_self_loop,
     "deep_nesting": m_deep_nesting, "recursive_function": m_recursive_function, "dup_function": m_dup_function,
     "dup_attr": m_dup_attr, "dup_keyed": m_dup_keyed, "copy_across": m_copy_across,
@@ -1330,6 +1504,8 @@ def default_weights(root: Message) -> dict[str, float]:
               "external_absurd", "cyclic_nodes", "self_loop", "io_alias", "drop_producer"):
         w[k] = 2.0
     w["outer_output"] = 2.5
+    w["shadow_scope"] = 2.5
+    w["dup_attr"] = 2.0
     w["late_reject"] = 0.7
     for k in ("drop_field", "dup_element", "swap_elements", "scalar_extreme"):
         w[k] = 1.5
